@@ -2733,6 +2733,197 @@ theorem runHooks_nothing_lost_nothing_twice [DecidableEq κ] [DecidableEq α] {h
       exact ih j h h' out hh hh' ho hsl
 
 
+/-! ### `Hook.WF` is an invariant of decisions (so the no-panic theorem applies tick after tick) -/
+
+theorem aux_kSnapRel_last_mono [DecidableEq κ] {last last' : List (κ × α)} {m m' : KMap κ α}
+    {rel : List (κ × α × Bool)} (h : KSnapRel last m rel m' last') :
+    ∀ k, (lookup k last).isSome = true → (lookup k last').isSome = true := by
+  induction h with
+  | nil => intro k hk; exact hk
+  | unchanged _ _ ih => exact ih
+  | withheld _ _ _ ih => exact ih
+  | fresh _ ih => intro k hk; exact ih k (aux_lookup_insertKV_isSome _ _ _ _ hk)
+
+theorem aux_kSnapRel_wf [DecidableEq κ] {last last' : List (κ × α)} {m m' : KMap κ α}
+    {rel : List (κ × α × Bool)} (h : KSnapRel last m rel m' last')
+    (hwf : ∀ e ∈ m, e.2 = [] → (lookup e.1 last).isSome = true) :
+    ∀ e ∈ m', e.2 = [] → (lookup e.1 last').isSome = true := by
+  induction h with
+  | nil => intro e he; simp at he
+  | @unchanged last k q l m0 rel0 m0' last0' hl hrest ih =>
+    intro e he hq
+    simp only [List.mem_cons] at he
+    rcases he with rfl | he
+    · exact aux_kSnapRel_last_mono hrest k (by simp [hl])
+    · exact ih (fun e he => hwf e (List.mem_cons_of_mem _ he)) e he hq
+  | @withheld last k q m0 rel0 m0' last0' hl hne hrest ih =>
+    intro e he hq
+    simp only [List.mem_cons] at he
+    rcases he with rfl | he
+    · exact absurd hq hne
+    · exact ih (fun e he => hwf e (List.mem_cons_of_mem _ he)) e he hq
+  | @fresh last k skipped x q' m0 rel0 m0' last0' hrest ih =>
+    intro e he hq
+    simp only [List.mem_cons] at he
+    rcases he with rfl | he
+    · exact aux_kSnapRel_last_mono hrest k (by simp [aux_lookup_insertKV_self])
+    · exact ih (fun e he he2 => aux_lookup_insertKV_isSome _ _ _ _ (hwf e (List.mem_cons_of_mem _ he) he2)) e he hq
+
+theorem aux_removeAt_keys [DecidableEq κ] : ∀ (m : KMap κ α) (k : κ) (idx : Nat) {item : α} {m' : KMap κ α},
+    removeAt k idx m = some (item, m') → m'.map Prod.fst = m.map Prod.fst := by
+  intro m
+  induction m with
+  | nil => intro k idx item m' h; simp [removeAt] at h
+  | cons e rest ih =>
+    obtain ⟨k0, q⟩ := e
+    intro k idx item m' h
+    unfold removeAt at h
+    split at h
+    · split at h
+      · simp at h
+      · simp only [Option.some.injEq, Prod.mk.injEq] at h
+        obtain ⟨_, rfl⟩ := h
+        simp
+    · split at h
+      · simp at h
+      · rename_i it r' hrec
+        simp only [Option.some.injEq, Prod.mk.injEq] at h
+        obtain ⟨_, rfl⟩ := h
+        simp [ih k idx hrec]
+
+/-- a decision followed by its release keeps a hook well-formed -/
+theorem hook_wf_preserved [DecidableEq κ] (h : Hook κ α) {d d' : Drv} {force nt : Bool} {h1 h2 : Hook κ α}
+    {out : List (Msg κ α)} (hwf : h.WF) (ha : h.auto d force = some (nt, h1, d'))
+    (hr : h1.release = some (h2, out)) : h2.WF := by
+  cases h with
+  | keyedSingleton m r last =>
+    simp only [Hook.auto, Option.map_eq_some_iff] at ha
+    obtain ⟨⟨r1, m1, l1, nt1, d1⟩, hh, heq⟩ := ha
+    simp only [Prod.mk.injEq] at heq; obtain ⟨_, rfl, _⟩ := heq
+    simp only [Hook.release, Option.map_some, Option.some.injEq, Prod.mk.injEq] at hr
+    obtain ⟨rfl, _⟩ := hr
+    exact aux_kSnapRel_wf (keyedSingleton_release_shape _ _ _ _ _ hh).1 hwf
+  | tlKeyedOrder m r =>
+    simp only [Hook.auto, Option.map_eq_some_iff] at ha
+    obtain ⟨⟨r1, m1, nt1, d1⟩, hh, heq⟩ := ha
+    simp only [Prod.mk.injEq] at heq; obtain ⟨_, rfl, _⟩ := heq
+    simp only [Hook.release, Option.map_some, Option.some.injEq, Prod.mk.injEq] at hr
+    obtain ⟨rfl, _⟩ := hr
+    have hkeys : m1.map Prod.fst = m.map Prod.fst := by
+      unfold tlKeyedOrderAuto at hh
+      simp only at hh
+      repeat' split at hh
+      all_goals first
+        | (simp at hh; done)
+        | (simp only [Option.some.injEq, Prod.mk.injEq] at hh; obtain ⟨_, rfl, _⟩ := hh; rfl)
+        | (rename_i hrem; simp only [Option.some.injEq, Prod.mk.injEq] at hh; obtain ⟨_, rfl, _⟩ := hh
+           exact aux_removeAt_keys _ _ _ hrem)
+    simp only [Hook.WF, hkeys]; exact hwf
+  | tlPartial m r =>
+    simp only [Hook.auto, Option.map_eq_some_iff] at ha
+    obtain ⟨⟨r1, m1, nt1, d1⟩, hh, heq⟩ := ha
+    simp only [Prod.mk.injEq] at heq; obtain ⟨_, rfl, _⟩ := heq
+    simp only [Hook.release, Option.map_some, Option.some.injEq, Prod.mk.injEq] at hr
+    obtain ⟨rfl, _⟩ := hr
+    have hkeys : m1.map Prod.fst = m.map Prod.fst := by
+      unfold tlPartialAuto at hh
+      simp only at hh
+      repeat' split at hh
+      all_goals first
+        | (simp at hh; done)
+        | (simp only [Option.some.injEq, Prod.mk.injEq] at hh; obtain ⟨_, rfl, _⟩ := hh; rfl)
+        | (rename_i hrem; simp only [Option.some.injEq, Prod.mk.injEq] at hh; obtain ⟨_, rfl, _⟩ := hh
+           exact aux_removeAt_keys _ _ _ hrem)
+    simp only [Hook.WF, hkeys]; exact hwf
+  | tlKeyedMerge m1 m2 r =>
+    simp only [Hook.auto, Option.map_eq_some_iff] at ha
+    obtain ⟨⟨r1, ma, mb, nt1, d1⟩, hh, heq⟩ := ha
+    simp only [Prod.mk.injEq] at heq; obtain ⟨_, rfl, _⟩ := heq
+    simp only [Hook.release, Option.map_some, Option.some.injEq, Prod.mk.injEq] at hr
+    obtain ⟨rfl, _⟩ := hr
+    have hkeys : ma.map Prod.fst = m1.map Prod.fst ∧ mb.map Prod.fst = m2.map Prod.fst := by
+      unfold tlKeyedMergeAuto at hh
+      simp only at hh
+      repeat' split at hh
+      all_goals first
+        | (simp at hh; done)
+        | (simp only [Option.some.injEq, Prod.mk.injEq] at hh; obtain ⟨_, rfl, rfl, _⟩ := hh; exact ⟨rfl, rfl⟩)
+        | (rename_i hrem; simp only [Option.some.injEq, Prod.mk.injEq] at hh; obtain ⟨_, rfl, rfl, _⟩ := hh
+           exact ⟨rfl, aux_removeAt_keys _ _ _ hrem⟩)
+        | (rename_i hrem; simp only [Option.some.injEq, Prod.mk.injEq] at hh; obtain ⟨_, rfl, rfl, _⟩ := hh
+           exact ⟨aux_removeAt_keys _ _ _ hrem, rfl⟩)
+    simp only [Hook.WF, hkeys.1, hkeys.2]; exact hwf
+  | streamTotal q r =>
+    simp only [Hook.auto, Option.map_eq_some_iff] at ha
+    obtain ⟨x, _, heq⟩ := ha
+    simp only [Prod.mk.injEq] at heq; obtain ⟨_, rfl, _⟩ := heq
+    simp only [Hook.release, Option.map_some, Option.some.injEq, Prod.mk.injEq] at hr
+    obtain ⟨rfl, _⟩ := hr; trivial
+  | streamNo q r =>
+    simp only [Hook.auto, Option.map_eq_some_iff] at ha
+    obtain ⟨x, _, heq⟩ := ha
+    simp only [Prod.mk.injEq] at heq; obtain ⟨_, rfl, _⟩ := heq
+    simp only [Hook.release, Option.map_some, Option.some.injEq, Prod.mk.injEq] at hr
+    obtain ⟨rfl, _⟩ := hr; trivial
+  | keyedTotal q r =>
+    simp only [Hook.auto, Option.map_eq_some_iff] at ha
+    obtain ⟨x, _, heq⟩ := ha
+    simp only [Prod.mk.injEq] at heq; obtain ⟨_, rfl, _⟩ := heq
+    simp only [Hook.release, Option.map_some, Option.some.injEq, Prod.mk.injEq] at hr
+    obtain ⟨rfl, _⟩ := hr; trivial
+  | keyedNo q r =>
+    simp only [Hook.auto, Option.map_eq_some_iff] at ha
+    obtain ⟨x, _, heq⟩ := ha
+    simp only [Prod.mk.injEq] at heq; obtain ⟨_, rfl, _⟩ := heq
+    simp only [Hook.release, Option.map_some, Option.some.injEq, Prod.mk.injEq] at hr
+    obtain ⟨rfl, _⟩ := hr; trivial
+  | singleton s =>
+    simp only [Hook.auto, Option.map_eq_some_iff] at ha
+    obtain ⟨x, _, heq⟩ := ha
+    simp only [Prod.mk.injEq] at heq; obtain ⟨_, rfl, _⟩ := heq
+    simp only [Hook.release, Option.map_eq_some_iff] at hr
+    obtain ⟨y, _, hy⟩ := hr
+    simp only [Prod.mk.injEq] at hy; obtain ⟨rfl, _⟩ := hy; trivial
+  | passthrough q r l =>
+    simp only [Hook.auto, Option.map_eq_some_iff] at ha
+    obtain ⟨x, _, heq⟩ := ha
+    simp only [Prod.mk.injEq] at heq; obtain ⟨_, rfl, _⟩ := heq
+    simp only [Hook.release, Option.map_some, Option.some.injEq, Prod.mk.injEq] at hr
+    obtain ⟨rfl, _⟩ := hr; trivial
+  | tlOrder q r =>
+    simp only [Hook.auto, Option.map_eq_some_iff] at ha
+    obtain ⟨x, _, heq⟩ := ha
+    simp only [Prod.mk.injEq] at heq; obtain ⟨_, rfl, _⟩ := heq
+    simp only [Hook.release, Option.map_some, Option.some.injEq, Prod.mk.injEq] at hr
+    obtain ⟨rfl, _⟩ := hr; trivial
+  | tlFold q r =>
+    simp only [Hook.auto, Option.map_eq_some_iff] at ha
+    obtain ⟨x, _, heq⟩ := ha
+    simp only [Prod.mk.injEq] at heq; obtain ⟨_, rfl, _⟩ := heq
+    simp only [Hook.release, Option.map_some, Option.some.injEq, Prod.mk.injEq] at hr
+    obtain ⟨rfl, _⟩ := hr; trivial
+  | tlMerge q1 q2 r =>
+    simp only [Hook.auto, Option.map_eq_some_iff] at ha
+    obtain ⟨x, _, heq⟩ := ha
+    simp only [Prod.mk.injEq] at heq; obtain ⟨_, rfl, _⟩ := heq
+    simp only [Hook.release, Option.map_some, Option.some.injEq, Prod.mk.injEq] at hr
+    obtain ⟨rfl, _⟩ := hr; trivial
+
+/-- … hence `run_hooks` keeps every hook of an idle, well-formed list well-formed (and, by
+`runHooks_runnable_tick_releases`, the next runnable tick is again resolved without a panic) -/
+theorem runHooks_preserves_wf [DecidableEq κ] {hs hs' : List (Hook κ α)} {outs : List (List (Msg κ α))}
+    (hst : Steps hs hs' outs) (hwf : ∀ h ∈ hs, h.WF) : ∀ h ∈ hs', h.WF := by
+  induction hst with
+  | nil => intro h hh; simp at hh
+  | @cons h0 h0' out0 hs hs' outs hstep _ ih =>
+    intro h hh
+    simp only [List.mem_cons] at hh
+    rcases hh with rfl | hh
+    · obtain ⟨d, f, nt, h1, d', ha, hr⟩ := hstep
+      exact hook_wf_preserved h0 (hwf h0 (List.mem_cons_self ..)) ha hr
+    · exact ih (fun x hx => hwf x (List.mem_cons_of_mem _ hx)) h hh
+
+
 /-! ### non-vacuity: concrete instances of the hypotheses above -/
 
 example : keyedTotalAuto [(7, [1, 2]), (9, [3])] ⟨[1, 1], []⟩ false
@@ -2745,5 +2936,17 @@ example : (Hook.tlFold (κ := Nat) [1, 2, 3] none).auto ⟨[1, 0, 1], []⟩ fals
     = some (true, .tlFold [2] (some [3, 1]), ⟨[], [.u 0 1 0, .b true, .b false, .b true]⟩) := by decide
 
 example : tickCanRun [Hook.streamTotal (κ := Nat) [1, 2] none, Hook.singleton { q := [7] }] = true := by decide
+
+/-- a well-formed `KeyedSingletonHook` with an emptied queue: the hypotheses of
+`runHooks_runnable_tick_releases` are satisfiable with every hook kind -/
+example : (Hook.keyedSingleton (κ := Nat) (α := Nat) [(7, [1]), (9, [])] none [(9, 5)]).WF := by
+  intro e he hq
+  simp only [List.mem_cons, List.not_mem_nil, or_false] at he
+  rcases he with rfl | rfl
+  · simp at hq
+  · simp [lookup]
+
+example : tickCanRun [Hook.keyedSingleton (κ := Nat) (α := Nat) [(7, [1]), (9, [])] none [(9, 5)],
+    .passthrough [] none (some 3)] = true := by decide
 
 end HvSim
